@@ -105,6 +105,29 @@ func sameObject(a, b ssa.Value) bool {
 	return false
 }
 
+// canExecuteAfter: instruction b can execute after instruction a on some path
+// (b later in a's block, or b's block reachable from a successor of a's block).
+func canExecuteAfter(a, b ssa.Instruction) bool {
+	if a.Block() == b.Block() && instrIndex(a) < instrIndex(b) {
+		return true
+	}
+	seen := map[*ssa.BasicBlock]bool{}
+	work := append([]*ssa.BasicBlock{}, a.Block().Succs...)
+	for len(work) > 0 {
+		x := work[len(work)-1]
+		work = work[:len(work)-1]
+		if seen[x] {
+			continue
+		}
+		seen[x] = true
+		if x == b.Block() {
+			return true
+		}
+		work = append(work, x.Succs...)
+	}
+	return false
+}
+
 func before(a, b ssa.Instruction) bool {
 	if a.Block() == b.Block() {
 		return instrIndex(a) < instrIndex(b)
@@ -287,18 +310,25 @@ func init() {
 					return
 				}
 			}
-			// the write that carries the crc
-			last := writes[0]
+			// the write that carries the crc: the one after which no other footer
+			// write can execute (field writes may sit in a loop over a value list)
+			var last *ssa.Call
+			nLast := 0
 			for _, w := range writes {
-				if before(last, w) {
+				final := true
+				for _, w2 := range writes {
+					if w2 != w && canExecuteAfter(w, w2) {
+						final = false
+					}
+				}
+				if final && !canExecuteAfter(w, w) {
 					last = w
+					nLast++
 				}
 			}
-			for _, w := range writes {
-				if w != last && !before(w, last) {
-					r.undecided(key, fnName(fn), c.pos(w.Pos()), "footer writes are not totally ordered")
-					return
-				}
+			if nLast != 1 {
+				r.undecided(key, fnName(fn), c.pos(fn.Pos()), fmt.Sprintf("%d footer writes can be the final one: the writes are not ordered with a single last write", nLast))
+				return
 			}
 			data := last.Call.Args[2]
 			if mi, ok := data.(*ssa.MakeInterface); ok {
